@@ -11,21 +11,22 @@ from asphalt.core import Context, current_context, get_resources, start_backgrou
 
 OUTCOMES = ["returns after 1 checkpoint", "still running when the owner is left (3 checkpoints)", "raises an Exception",
             "cancelled through the handle right after the spawn", "cancelled through the handle after 1 checkpoint",
-            "returns at once (no checkpoint, no teardown callback of its own)"]
+            "returns at once (no checkpoint, no teardown callback of its own)",
+            "blocks until it is cancelled (through its handle before the owner is left, or by a crashing sibling)"]
 SITES = ["owner context", "a child context of the owner", "another task running in an unrelated context"]
-HANDLERS = ["no exception handler", "handler returns True", "handler returns False"]
+HANDLERS = ["no exception handler", "handler returns True", "handler returns False", "handler returns 1 (truthy, not True)"]
 
 
 def cfg(tier):
-    return (1, 6) if tier == "quick" else (2, 5)
+    return (1, 5) if tier == "quick" else (2, 5)
 
 
 def params(tier):
     D, L = cfg(tier)
     nt = 2
-    ps = [P("ntask", 0, nt - 1), P("site", 0, 2), P("nested", 0, 1), P("handler", 0, 2), P("fstart", 0, 1)]
+    ps = [P("ntask", 0, nt - 1), P("site", 0, 2), P("nested", 0, 1), P("handler", 0, 3), P("fstart", 0, 1)]
     for i in range(nt):
-        ps += [P(f"api{i}", 0, 1), P(f"out{i}", 0, 5)]
+        ps += [P(f"api{i}", 0, 1), P(f"out{i}", 0, 6)]
     for j in range(D):
         ps += [P(f"gap{j}", 0, L), P(f"arm{j}", 0, 3)]
     return ps
@@ -38,8 +39,8 @@ def fn(a, tier):
     nt = 1 + pick(a["ntask"], ntmax)
     site, nested = pick(a["site"], 3), pick(a["nested"], 2)
     apis = [pick(a[f"api{i}"], 2) for i in range(nt)]
-    outs = [pick(a[f"out{i}"], 6 if (i == 0 or tier != "quick") else 3) for i in range(nt)]
-    handler_kind = pick(a["handler"], 3) if 2 in outs else 0
+    outs = [pick(a[f"out{i}"], 7 if (i == 0 or tier != "quick") else 3) for i in range(nt)]
+    handler_kind = pick(a["handler"], 4) if 2 in outs else 0
     fstart = pick(a["fstart"], 2)  # 1: factory started through the owner's METHOD while another (nested, short-lived) context is current
     tape = DeviationTape([(a[f"gap{j}"], a[f"arm{j}"]) for j in range(D)], L)
     log = []
@@ -50,7 +51,7 @@ def fn(a, tier):
 
     def handler(exc):
         info["handler_calls"].append(exc)
-        return handler_kind == 1
+        return {1: True, 2: False, 3: 1}[handler_kind]
 
     def make(i):
         async def task():
@@ -70,9 +71,11 @@ def fn(a, tier):
 
             ctx.add_teardown_callback(own_teardown)
             try:
-                steps = {0: 1, 1: 3, 2: 1, 3: 2, 4: 3, 5: 0}[outs[i]]
+                steps = {0: 1, 1: 3, 2: 1, 3: 2, 4: 3, 5: 0, 6: 0}[outs[i]]
                 for _ in range(steps):
                     await anyio.sleep(0)
+                if outs[i] == 6:
+                    await anyio.sleep_forever()
                 if outs[i] == 2:
                     raise errors[i]
             except BaseException as e:
@@ -158,6 +161,15 @@ def fn(a, tier):
             for i in range(nt):
                 tg.start_soon(waiter, i, tf)
             await anyio.sleep(0)
+            # tasks that block until cancelled are released through their handles before the owner is left
+            will_crash = (2 in outs) and handler_kind not in (1, 3)
+            for i in range(nt):
+                if outs[i] == 6 and not will_crash:
+                    info[("live_at_cancel", i)] = ("end", i) not in log
+                    info["handles"][i].cancel()
+            if will_crash and 6 in outs:
+                # a declined exception must take the blocked sibling down by itself: nobody releases it
+                await anyio.sleep(50)
             log.append(("leaving",))
         info["owner_left"] = True
         log.append(("left",))
@@ -193,7 +205,7 @@ def fn(a, tier):
                "spawned_from": SITES[site], "owner": "nested" if nested else "child of an unrelated root", "handler": HANDLERS[handler_kind], "factory_started_via": "owner.start_background_task_factory() while a nested context was current" if fstart else "shortcut in the owner",
                "schedule": tape.taken}
     raisers = [i for i in range(nt) if outs[i] == 2]
-    expect_escape = bool(raisers) and handler_kind != 1
+    expect_escape = bool(raisers) and handler_kind not in (1, 3)
     if info["violations"]:
         v = info["violations"][0]
         return FAIL(f"handle-set:{v[0]}:api={['start_task', 'start_task_soon'][apis[v[1]]] if v[1] < nt else '-'}:out={outs[v[1]] if v[1] < nt else '-'}",
@@ -232,7 +244,7 @@ def fn(a, tier):
         saw_cancel = ("saw", i, "cancel") in pos
         if outs[i] in (0, 1, 2, 5) and saw_cancel:
             return FAIL(f"task-cancelled-although-not-requested:out={outs[i]}", log, summary)
-        if outs[i] in (3, 4) and ("begin", i) in pos and info.get(("live_at_cancel", i)) and not saw_cancel:
+        if outs[i] in (3, 4, 6) and ("begin", i) in pos and info.get(("live_at_cancel", i)) and not saw_cancel:
             return FAIL(f"cancel-through-handle-lost:out={outs[i]}:api={apis[i]}", log, summary)
         if ("waited", i) not in pos:
             return FAIL(f"wait_finished-never-returned:out={outs[i]}", log, summary)
@@ -252,7 +264,7 @@ H = Harness(
     title="tasks spawned through a TaskFactory from different sites, with every outcome, handler verdict and owner teardown while tasks run",
     bound_text=lambda tier: f"1-2 tasks x {{start_task, start_task_soon}} x outcome{{" + "; ".join(OUTCOMES) + "} x spawned from {"
     + "; ".join(SITES) + "} x " + "/".join(HANDLERS) + " x owner root-level/nested x factory started by the shortcut / by the owner's method from inside another nested context; every task has an async teardown callback in its own context; observer after EVERY scheduler step; late spawns after teardown; FIFO with "
-    + ("one deviation within 6 decisions; the second task only returns / keeps running / raises" if tier == "quick" else "two deviations (each within 5 decisions), all outcomes for both tasks"),
+    + ("one deviation within 5 decisions; the second task only returns / keeps running / raises" if tier == "quick" else "two deviations (each within 5 decisions), all outcomes for both tasks"),
     oracle="task context's parent chain = factory context -> owner, never the spawner's; tasks see exactly the resources present when the factory "
     "started; at every scheduler step: running tasks are in all_task_handles(), tasks whose wait_finished() returned are not, no foreign handles; "
     "wait_finished() returns for every outcome and only after the task's own context has been torn down; cancel() affects only its task; leaving the owner waits for running tasks (none sees a "
